@@ -54,6 +54,15 @@ def _mk():
     add('cosh', lambda x, c: algopy.cosh(x), 'sinhcosh', lambda x0, c: [np.sinh(x0), np.cosh(x0)], nout=2, out=1, f=np.cosh)
     add('tanh', lambda x, c: algopy.tanh(x), 'tanhsech2',
         lambda x0, c: [np.tanh(x0), 1 - np.tanh(x0) * np.tanh(x0)], nout=2, out=0, f=np.tanh)
+    # the pair-returning methods (both members, tied to both outputs of the coupled recurrences)
+    add('sincos_s', lambda x, c: x.sincos()[0], 'sincos', lambda x0, c: [np.sin(x0), np.cos(x0)], nout=2, out=0, cplx=True, f=np.sin)
+    add('sincos_c', lambda x, c: x.sincos()[1], 'sincos', lambda x0, c: [np.sin(x0), np.cos(x0)], nout=2, out=1, cplx=True, f=np.cos)
+    add('sinhcosh_s', lambda x, c: x.sinhcosh()[0], 'sinhcosh', lambda x0, c: [np.sinh(x0), np.cosh(x0)], nout=2, out=0, f=np.sinh)
+    add('sinhcosh_c', lambda x, c: x.sinhcosh()[1], 'sinhcosh', lambda x0, c: [np.sinh(x0), np.cosh(x0)], nout=2, out=1, f=np.cosh)
+    add('tansec2_t', lambda x, c: x.tansec2()[0], 'tansec2', lambda x0, c: [np.tan(x0), 1. / (np.cos(x0) * np.cos(x0))],
+        dom='tan', nout=2, out=0, f=np.tan)
+    add('tansec2_z', lambda x, c: x.tansec2()[1], 'tansec2', lambda x0, c: [np.tan(x0), 1. / (np.cos(x0) * np.cos(x0))],
+        dom='tan', nout=2, out=1, f=lambda z: 1. / (np.cos(z) * np.cos(z)))
     add('reciprocal', lambda x, c: algopy.reciprocal(x), 'recip', lambda x0, c: [], dom='nz', cplx=True, f=lambda z: 1 / z)
     add('square', lambda x, c: algopy.square(x), 'square', lambda x0, c: [], cplx=True, f=lambda z: z * z)
     add('negative', lambda x, c: algopy.negative(x), 'neg', lambda x0, c: [], cplx=True, f=lambda z: -z)
